@@ -1,1 +1,90 @@
-//! Hooks for property C15 (empty until needed).
+//! Hooks for property C15: the crate-private `DryRunBackend` over a `DecryptBackend`,
+//! with every trait method (own and trait-default) callable from the harness.
+use std::sync::Arc;
+
+use crate::{
+    FileType, Id, ReadBackend, WriteBackend,
+    backend::{
+        decrypt::{DecryptBackend, DecryptWriteBackend},
+        dry_run::DryRunBackend,
+    },
+    crypto::aespoly1305::Key,
+    repofile::{ConfigFile, SnapshotFile, SnapshotId, indexfile::IndexId, packfile::PackId},
+};
+
+/// `DryRunBackend<DecryptBackend<Key>>` as the backup command builds it
+pub struct DryRun(DryRunBackend<DecryptBackend<Key>>);
+
+pub fn dry_run_backend(be: Arc<dyn WriteBackend>, dry_run: bool) -> DryRun {
+    DryRun(DryRunBackend::new(DecryptBackend::new(be, Key::new()), dry_run))
+}
+
+fn snap(n: u64) -> SnapshotFile {
+    let mut s = SnapshotFile::default();
+    s.label = format!("c15-{n}");
+    s
+}
+
+impl DryRun {
+    pub fn write_bytes(&self, tpe: FileType, id: &Id, cacheable: bool, data: Vec<u8>) -> bool {
+        self.0.write_bytes(tpe, id, cacheable, bytes::Bytes::from(data).into()).is_ok()
+    }
+    pub fn remove(&self, tpe: FileType, id: &Id, cacheable: bool) -> bool {
+        self.0.remove(tpe, id, cacheable).is_ok()
+    }
+    pub fn create(&self) -> bool {
+        self.0.create().is_ok()
+    }
+    pub fn hash_write_full(&self, tpe: FileType, data: &[u8]) -> Option<Id> {
+        self.0.hash_write_full(tpe, data).ok()
+    }
+    pub fn hash_write_full_uncompressed(&self, tpe: FileType, data: &[u8]) -> Option<Id> {
+        self.0.hash_write_full_uncompressed(tpe, data).ok()
+    }
+    /// trait-default `save_file` on an encrypted file type (snapshot)
+    pub fn save_file_snapshot(&self, n: u64) -> Option<Id> {
+        self.0.save_file(&snap(n)).ok()
+    }
+    /// trait-default `save_file_uncompressed` (config)
+    pub fn save_file_uncompressed_config(&self) -> Option<Id> {
+        self.0.save_file_uncompressed(&ConfigFile::default()).ok()
+    }
+    /// trait-default `save_list` over `k` snapshots
+    pub fn save_list_snapshots(&self, n: u64, k: u64) -> bool {
+        let l: Vec<SnapshotFile> = (0..k).map(|i| snap(n * 1000 + i)).collect();
+        self.0.save_list(l.iter(), crate::Progress::hidden()).is_ok()
+    }
+    /// trait-default `delete_list`; the file type comes from the id type
+    pub fn delete_list(&self, tpe: FileType, ids: &[Id]) -> bool {
+        let p = crate::Progress::hidden();
+        match tpe {
+            FileType::Snapshot => {
+                let l: Vec<SnapshotId> = ids.iter().map(|i| SnapshotId::from(*i)).collect();
+                self.0.delete_list(true, l.iter(), p).is_ok()
+            }
+            FileType::Index => {
+                let l: Vec<IndexId> = ids.iter().map(|i| IndexId::from(*i)).collect();
+                self.0.delete_list(true, l.iter(), p).is_ok()
+            }
+            _ => {
+                let l: Vec<PackId> = ids.iter().map(|i| PackId::from(*i)).collect();
+                self.0.delete_list(false, l.iter(), p).is_ok()
+            }
+        }
+    }
+    pub fn set_zstd(&mut self, z: Option<i32>) {
+        self.0.set_zstd(z);
+    }
+    pub fn set_extra_verify(&mut self, v: bool) {
+        self.0.set_extra_verify(v);
+    }
+    pub fn read_full(&self, tpe: FileType, id: &Id) -> bool {
+        self.0.read_full(tpe, id).is_ok()
+    }
+    pub fn list_with_size(&self, tpe: FileType) -> usize {
+        self.0.list_with_size(tpe).map(|l| l.len()).unwrap_or(0)
+    }
+    pub fn read_partial(&self, tpe: FileType, id: &Id, off: u32, len: u32) -> bool {
+        self.0.read_partial(tpe, id, false, off, len).is_ok()
+    }
+}
